@@ -23,7 +23,7 @@ namespace {
 std::int64_t g_delta[NEMIT], g_val[NEMIT];
 std::int64_t g_poison;  // written by run 1 (and by the interfering graph) into global state / state
 
-struct Rec { DateTime t; Int v; Int seen_seed; Int seen_scratch; Int state_before; };
+struct Rec { DateTime t; Int v; Int seen_seed; Int seen_scratch; Int state_before; Int seen_bias; };
 struct Trace { Rec r[NEMIT + 2]; int n = 0; };
 Trace g_tr[3];
 // which trace the currently running executor writes to; with THREADS each executor carries its id in a scalar
@@ -47,7 +47,8 @@ struct Acc {
         Int seed = gs.contains("seed") ? gs.get("seed").checked_as<Int>() : -1;
         Int scratch = gs.contains("scratch") ? gs.get("scratch").checked_as<Int>() : -1;
         sum.set(before + a.value());
-        if (tr.n < NEMIT + 2) tr.r[tr.n++] = Rec{now, sum.get(), seed, scratch, before};
+        Int bias = gs.contains("bias") ? gs.get("bias").checked_as<Int>() : -1;
+        if (tr.n < NEMIT + 2) tr.r[tr.n++] = Rec{now, sum.get(), seed, scratch, before, bias};
         gs.set("scratch", Value{Int{g_poison + sum.get()}});  // state written by this run
         gs.set("seed", Value{Int{g_poison}});                 // ... including an overwrite of the seeded key
         out.set(sum.get());
@@ -86,6 +87,25 @@ void run_thread(void *arg) {
     GraphExecutorValue ex = g_eb[which]->make_executor();
     ex.view().run();
 }
+// THREADS == 2: a worker thread selects its OWN GlobalContext (wiring-time global state with a 'bias' entry) and builds and
+// runs its graph inside it, while the other thread, which never selected a context, builds and runs the same recipe.
+DateTime g_start_t, g_end_t;
+void ctx_worker(void *) {
+    GlobalContext ctx;
+    ctx.state().view().set("bias", Value{Int{g_poison}});
+    GraphBuilder gb = build_graph<Top<0>>();
+    GraphExecutorBuilder eb;
+    eb.graph_builder(std::move(gb)).start_time(g_start_t).end_time(g_end_t);
+    GraphExecutorValue ex = eb.make_executor();
+    ex.view().run();
+}
+void plain_worker(void *) {
+    GraphBuilder gb = build_graph<Top<1>>();
+    GraphExecutorBuilder eb;
+    eb.graph_builder(std::move(gb)).start_time(g_start_t).end_time(g_end_t);
+    GraphExecutorValue ex = eb.make_executor();
+    ex.view().run();
+}
 template <int RUN> GraphBuilder seeded_builder() {
     GraphBuilder gb = build_graph<Top<RUN>>();
     gb.global_state().set("seed", Value{Int{41}});
@@ -106,7 +126,22 @@ extern "C" int harness_main() {
     eb2.graph_builder(seeded_builder<1>()).start_time(start).end_time(end);
     g_eb[0] = &eb0; g_eb[1] = &eb1; g_eb[2] = &eb2;
 
-    if (THREADS) {
+    g_start_t = start; g_end_t = end;
+    if (THREADS == 2) {
+        int t1 = verif_spawn(ctx_worker, nullptr);
+        int t2 = verif_spawn(plain_worker, nullptr);
+        verif_join(t1);
+        verif_join(t2);
+        verif_reach("context_thread_and_plain_thread_interleaved");
+        bool no_leak = true, own = true;
+        for (int i = 0; i < g_tr[1].n; i++) no_leak &= (g_tr[1].r[i].seen_bias == -1);      // the plain thread never sees the other thread's context
+        for (int i = 0; i < g_tr[0].n; i++) own &= (g_tr[0].r[i].seen_bias == g_poison);   // the context thread sees its own
+        verif_assert(no_leak, "C07.other_threads_global_context_not_visible");
+        verif_assert(own, "C07.own_global_context_visible");
+        verif_assert(g_tr[0].n == g_tr[1].n, "C07.same_number_of_cycles_on_both_threads");
+        verif_reach("end");
+        return 0;
+    } else if (THREADS) {
         verif_clock_set_ns(verif_range("clock0", 1600000000000000000LL, 1800000000000000000LL));
         int t1 = verif_spawn(run_thread, (void *)(std::intptr_t)0);
         int t2 = verif_spawn(run_thread, (void *)(std::intptr_t)1);
